@@ -8,6 +8,7 @@ from .. import bits, fields, paths
 from ..core import FUNC, call_attr, calls_in, const, dotted, is_const, kwarg, norm, slice_parts, text, walk_local
 
 EXPLANATION = [
+    'C19.sdp-containment: (shared with C17) DataElementParser records the end of the sequence being parsed, refuses an element that ends past it, and puts the outer bound back on every exit of the nested parse (path rule): an empty nested sequence does not leave a stale, too small bound for the siblings that follow.',
     'C19.records-not-aliased: (shared with C17) every local container that a method of sdp.Server modifies in place is one the method created: answering a request never edits a registered record, so later transactions still return exactly the registered attributes.',
     'C19.missing-await: inside async functions no call that resolves (through the declared type of self.<attr>, or self) to a coroutine method is returned or dropped without await.',
     "C19.identity: no `is` / `is not` comparison in the anchored modules has an operand declared as a number, byte string or string (identity of equal integers holds only inside CPython's small-integer cache, so such a test is right for values up to 256 and wrong afterwards).",
@@ -639,7 +640,13 @@ def records_not_aliased_rule(ctx):
     records_not_aliased(ctx, 'C19.records-not-aliased')
 
 
+def sdp_containment_rule(ctx):
+    from .c17 import sdp_containment
+    sdp_containment(ctx, 'C19.sdp-containment')
+
+
 RULES = [
+    ('C19.sdp-containment', sdp_containment_rule),
     ('C19.records-not-aliased', records_not_aliased_rule),
     ('C19.missing-await', missing_await_rule),
     ('C19.identity', identity_rule),
